@@ -11,7 +11,9 @@ from . import gen, run
 from .registry import PROPERTIES
 
 VERIF = gen.VERIF
-EVID = os.path.join(VERIF, 'evidence')
+# VX_EVIDENCE_DIR: seeded-change runs (tools/try_mutant.sh) write their evidence to a scratch directory so that the
+# committed evidence/ always describes the unchanged tree
+EVID = os.environ.get('VX_EVIDENCE_DIR') or os.path.join(VERIF, 'evidence')
 REPLAY_OUT = os.path.join(VERIF, 'replay', 'out')
 
 
